@@ -130,6 +130,46 @@ theorem runMin_greatest (l g : List Rat) (hg : List.Forall₂ (· ≤ ·) g l) (
     intro x hx
     exact le_trans ((List.pairwise_cons.mp hmono).1 x hx) hah
 
+/-- **The breakpoint is exactly where the pocket closes.**  The temperature `closeInsert` inserts —
+    `linear_interpolation(H[i₀], H[e], H[e±1], T[e], T[e±1])` — is the point of the GCC segment between
+    rows `e` and `e ± 1` at which the curve takes the pocket's opening value `h0` again, and it lies
+    between the two rows whenever `h0` lies between their enthalpies (which is how `_pocket_exit_index`
+    chooses `e`). -/
+theorem closing_temperature_is_where_pocket_closes (h0 he he1 te te1 t0 : Rat) (hT : te ≠ te1)
+    (h : linearInterpolation h0 he he1 te te1 = .ok t0) :
+    he + (he1 - he) * (t0 - te) / (te1 - te) = h0 ∧
+    (he1 ≤ h0 → h0 ≤ he → (min te te1 ≤ t0 ∧ t0 ≤ max te te1)) := by
+  unfold linearInterpolation at h
+  split_ifs at h with hx
+  simp only [Except.ok.injEq] at h
+  have hd : he - he1 ≠ 0 := sub_ne_zero.mpr hx
+  have hdT : te1 - te ≠ 0 := sub_ne_zero.mpr (Ne.symm hT)
+  have e : t0 - te = (te - te1) * (h0 - he) / (he - he1) := by
+    rw [← h]; field_simp; ring
+  constructor
+  · rw [e]; field_simp; ring
+  · intro h1 h2
+    -- t0 = te + λ (te1 − te) with λ = (he − h0)/(he − he1) ∈ [0, 1]
+    have hpos : 0 < he - he1 := by
+      rcases lt_or_gt_of_ne hx with h' | h'
+      · linarith
+      · linarith
+    set lam := (he - h0) / (he - he1) with hl
+    have hl0 : 0 ≤ lam := div_nonneg (by linarith) (le_of_lt hpos)
+    have hl1 : lam ≤ 1 := by rw [hl]; exact div_le_one_of_le₀ (by linarith) (le_of_lt hpos)
+    have et : t0 = te + lam * (te1 - te) := by
+      have : t0 = te + (te - te1) * (h0 - he) / (he - he1) := by linarith [e]
+      rw [this, hl]; field_simp; ring
+    rcases le_total te te1 with hle | hle
+    · rw [min_eq_left hle, max_eq_right hle, et]
+      constructor
+      · nlinarith
+      · nlinarith
+    · rw [min_eq_right hle, max_eq_left hle, et]
+      constructor
+      · nlinarith
+      · nlinarith
+
 /-- the specification on a curve with a pocket on each side of the pinch -/
 example : npSpec (1 / 1000000) [400, 600, 200, 400, 100, 0, 300, 100, 500] = [400, 400, 200, 200, 100, 0, 100, 100, 500] := by
   decide +kernel
